@@ -196,6 +196,7 @@ func typedCase(seed uint64, idx int) (g *gen, doc interface{}, generic interface
 		e := g.r.pick([]string{"Kids[*].Leafs[*].Name", "Kids[*].Tags[*]", "PKids[*].Leafs[*].Val", "Kids[?Leafs[?Ok]].Label", "Kids[?Tags[?@ == 't']].Id", "Kids[*].Leafs[?Ok].Name",
 			"Kids[:3].Leafs[::-1].Name", "Kids[::-1].Tags[:2]", "Lists[*][*]", "Lists[*][::-1]", "Kids[].Leafs[].Name", "Kids[*].Leafs[*].[Name, Val]", "PKids[*].Tags[*] | [0]",
 			"Kids[*].[Leafs[*].Name, Tags[*]]", "Kids[?Leafs[0].Ok].Leafs[*].Name", "[Kids[*].Tags[*], Kids[*].Leafs[*].Ok]", "Kids[*].Leafs[*].Name | [1]",
+			"[Lists][]", "[Lists, Nums][]", "[Lists][] | length(@)", "[Lists, Lists][][]", "[Kids[*].Tags, Lists][]", "[[Lists]][][]", "Kids[*].[Tags][]",
 			"Nums[1::9223372036854775807]", "Kids[1::9223372036854775807].Label", "Strs[-1::9223372036854775807]", "Nums[::-9223372036854775808]", "Nums[1:3:9223372036854775806]",
 			"PKids[2::9223372036854775807]", "Lists[*][1::9223372036854775807]", "Nums[-9223372036854775808:9223372036854775807:9223372036854775807]", "Kids[:-9223372036854775808:-1].Id",
 			"Nums[9223372036854775807]", "Nums[-9223372036854775808]", "Kids[-9223372036854775808].Label",
